@@ -2,6 +2,9 @@ package c03
 
 import (
 	"bytes"
+	stdecdsa "crypto/ecdsa"
+	"crypto/elliptic"
+	"crypto/rand"
 	stdrsa "crypto/rsa"
 	"fmt"
 	"math/big"
@@ -16,6 +19,8 @@ import (
 	"github.com/tink-crypto/tink-go/v2/signature/rsassapkcs1"
 	"github.com/tink-crypto/tink-go/v2/signature/rsassapss"
 	sigsubtle "github.com/tink-crypto/tink-go/v2/signature/subtle"
+	"github.com/tink-crypto/tink-go/v2/tink"
+	"github.com/tink-crypto/tink-go/v2/verifharness/internal/detrand"
 	"github.com/tink-crypto/tink-go/v2/verifharness/internal/evid"
 	"github.com/tink-crypto/tink-go/v2/verifharness/internal/gen"
 	"github.com/tink-crypto/tink-go/v2/verifharness/internal/ref/sigref"
@@ -38,7 +43,53 @@ func refused(t *rapid.T, desc string, f func() error) {
 	}
 }
 
-// TestSigOutOfDomain: what the constructors document as refused is refused with an error.
+// refusedOrCounted runs a call on input outside the domain of C03's statement where neither C03 nor
+// C14 says that it must be refused: it must not panic; the decision is counted under ood/<what>/.
+// It returns true when the call went through.
+func refusedOrCounted(t *rapid.T, what, desc string, f func() error) (built bool) {
+	var err error
+	func() {
+		defer func() {
+			if p := recover(); p != nil {
+				t.Fatalf("out-of-domain input made the call panic: %s: %s: %v", what, desc, p)
+			}
+		}()
+		err = f()
+	}()
+	if err == nil {
+		evid.Add("ood/"+what+"/built", 1)
+		return true
+	}
+	evid.Add("ood/"+what+"/refused", 1)
+	return false
+}
+
+// c14 marks the refusals that C14's sentence carries ("Keys below the library's minimum strengths
+// (... RSA modulus under 2048 bits or exponent other than 65537, ECDSA hash weaker than its curve ...)
+// never yield a usable primitive"): for those, f runs the constructors up to a Signer / Verifier and
+// must fail somewhere on the way.
+const c14 = " [C14: keys below the minimum strengths never yield a usable primitive]"
+
+// oodOracle runs the two-sided oracle of the in-domain units on a primitive that the library was
+// free to refuse but built (a case with signer, verifier, prefix and ref set).
+func oodOracle(t *rapid.T, c *sigCase, what string) {
+	msg := gen.Bytes(t, "msg", 64)
+	sig, _ := c.signAndCheck(t, msg, nil)
+	c.commonCandidates(t, msg, sig)
+	c.counts()
+	evid.Add("ood/"+what+"/equivalence_oracle_cases", 1)
+}
+
+var ecdsaHashBits = map[string]int{"SHA1": 160, "SHA224": 224, "SHA256": 256, "SHA384": 384, "SHA512": 512}
+var ecdsaCurveBits = map[string]int{"NIST_P256": 256, "NIST_P384": 384, "NIST_P521": 512}
+
+// TestSigOutOfDomain: parameters and key material outside the domain of C03's statement.  Nothing
+// may panic.  A refusal is demanded only where C14's minimum-strength sentence carries it (RSA
+// modulus under 2048 bits, exponent other than 65537, ECDSA hash weaker than its curve: no Signer /
+// Verifier may come out) and, for a public key that is not a point of the curve, in the form "a
+// signature of the genuine key is rejected" (C03: other keys are rejected).  Everything else is
+// "refused => counted; built => counted, and where an independent reference exists (ECDSA with a hash
+// longer than the curve, RSA with SHA-1 / SHA-224) the equivalence oracle of the in-domain units runs".
 func TestSigOutOfDomain(t *testing.T) {
 	ensurePool(t)
 	kinds := []string{
@@ -48,19 +99,66 @@ func TestSigOutOfDomain(t *testing.T) {
 		"rsa-internal-modulus", "rsa-internal-exponent", "rsa-internal-hash", "rsa-key-exponent",
 	}
 	rapid.Check(t, func(rt *rapid.T) {
-		kind := rapid.SampledFrom(kinds).Draw(rt, "kind")
+		detrand.Seed(rapid.Uint64().Draw(rt, "entropy"))
+		kind := gen.Pick(rt, "kind", kinds)
 		var desc string
 		switch kind {
 		case "ecdsa-params-hash-curve":
 			bad := []struct {
-				c ecdsa.CurveType
-				h ecdsa.HashType
-			}{{ecdsa.NistP256, ecdsa.SHA384}, {ecdsa.NistP256, ecdsa.SHA512}, {ecdsa.NistP384, ecdsa.SHA256}, {ecdsa.NistP521, ecdsa.SHA256}, {ecdsa.NistP521, ecdsa.SHA384}}
-			b := rapid.SampledFrom(bad).Draw(rt, "pair")
-			enc := rapid.SampledFrom([]ecdsa.SignatureEncoding{ecdsa.DER, ecdsa.IEEEP1363}).Draw(rt, "enc")
-			v := ecdsaVariant(rapid.SampledFrom(variants).Draw(rt, "variant"))
-			desc = fmt.Sprintf("ecdsa.NewParameters(%v, %v, %v, %v)", b.c, b.h, enc, v)
-			refused(rt, desc, func() error { _, err := ecdsa.NewParameters(b.c, b.h, enc, v); return err })
+				c     ecdsa.CurveType
+				h     ecdsa.HashType
+				curve elliptic.Curve
+				cn    string
+				hn    string
+			}{
+				{ecdsa.NistP256, ecdsa.SHA384, elliptic.P256(), "NIST_P256", "SHA384"}, {ecdsa.NistP256, ecdsa.SHA512, elliptic.P256(), "NIST_P256", "SHA512"},
+				{ecdsa.NistP384, ecdsa.SHA256, elliptic.P384(), "NIST_P384", "SHA256"}, {ecdsa.NistP521, ecdsa.SHA256, elliptic.P521(), "NIST_P521", "SHA256"},
+				{ecdsa.NistP521, ecdsa.SHA384, elliptic.P521(), "NIST_P521", "SHA384"},
+			}
+			b := gen.Pick(rt, "pair", bad)
+			encS := gen.Pick(rt, "enc", []string{sigref.DER, sigref.P1363})
+			enc := map[string]ecdsa.SignatureEncoding{sigref.DER: ecdsa.DER, sigref.P1363: ecdsa.IEEEP1363}[encS]
+			variant := gen.Pick(rt, "variant", variants)
+			id := uint32(0)
+			if variant != tk.NoPrefix {
+				id = gen.KeyID(rt, "id")
+			}
+			d, note := drawScalar(rt, b.curve)
+			size := sigref.ScalarSize(b.curve)
+			scalar := d.FillBytes(make([]byte, size))
+			qx, qy := b.curve.ScalarBaseMult(scalar)
+			desc = fmt.Sprintf("ecdsa.NewParameters(%v, %v, %v, %v), then NewPrivateKey(d=%x, id=%#x), NewSigner, NewVerifier", b.c, b.h, enc, variant, scalar, id)
+			c := &sigCase{scheme: "ECDSA", params: b.cn + "-" + b.hn + "/" + encS, variant: variant, id: id, route: "key(out-of-domain)",
+				keyDesc: fmt.Sprintf("d=%x %s", scalar, note), prefix: tk.Prefix(variant, id)}
+			build := func() error {
+				params, err := ecdsa.NewParameters(b.c, b.h, enc, ecdsaVariant(variant))
+				if err != nil {
+					return err
+				}
+				priv, err := ecdsa.NewPrivateKey(tk.Secret(scalar), id, params)
+				if err != nil {
+					return err
+				}
+				pk, err := priv.PublicKey()
+				if err != nil {
+					return err
+				}
+				pub, ok := pk.(*ecdsa.PublicKey)
+				if !ok {
+					return fmt.Errorf("public key is a %T", pk)
+				}
+				if c.signer, err = ecdsa.NewSigner(priv, internalapi.Token{}); err != nil {
+					return err
+				}
+				c.verifier, err = ecdsa.NewVerifier(pub, internalapi.Token{})
+				return err
+			}
+			if ecdsaHashBits[b.hn] < ecdsaCurveBits[b.cn] {
+				refused(rt, desc+c14, build)
+			} else if refusedOrCounted(rt, "ecdsa-key-hash-longer-than-curve", desc, build) {
+				ecdsaOracles(c, ecCombo{name: b.cn, short: b.cn, c: b.curve, ct: b.c, hash: b.hn, ht: b.h}, encS, d, qx, qy)
+				oodOracle(rt, c, "ecdsa-key-hash-longer-than-curve")
+			}
 		case "ecdsa-params-enum":
 			which := rapid.IntRange(0, 3).Draw(rt, "which")
 			outside := func(label string, hi int) int { // 0 (unknown) or beyond the last enumerator
@@ -81,39 +179,74 @@ func TestSigOutOfDomain(t *testing.T) {
 				v = ecdsa.Variant(outside("variant", int(ecdsa.VariantNoPrefix)))
 			}
 			desc = fmt.Sprintf("ecdsa.NewParameters(%d, %d, %d, %d)", c, h, e, v)
-			refused(rt, desc, func() error { _, err := ecdsa.NewParameters(c, h, e, v); return err })
+			refusedOrCounted(rt, "ecdsa.NewParameters-enum-outside", desc, func() error { _, err := ecdsa.NewParameters(c, h, e, v); return err })
 		case "ecdsa-subtle-params":
 			bad := []struct{ h, c, e string }{
 				{"SHA1", "NIST_P256", "DER"}, {"SHA224", "NIST_P256", "DER"}, {"SHA384", "NIST_P256", "DER"}, {"SHA512", "NIST_P256", "IEEE_P1363"},
 				{"SHA256", "NIST_P384", "DER"}, {"SHA1", "NIST_P384", "IEEE_P1363"}, {"SHA256", "NIST_P521", "DER"}, {"SHA384", "NIST_P521", "DER"},
 				{"SHA256", "NIST_P256", "BER"}, {"SHA256", "NIST_P256", ""}, {"SHA256", "NIST_P224", "DER"}, {"SHA256", "", "DER"}, {"", "NIST_P256", "DER"},
 			}
-			b := rapid.SampledFrom(bad).Draw(rt, "triple")
+			b := gen.Pick(rt, "triple", bad)
 			desc = fmt.Sprintf("subtle ECDSA (%q, %q, %q)", b.h, b.c, b.e)
-			refused(rt, "ValidateECDSAParams "+desc, func() error { return sigsubtle.ValidateECDSAParams(b.h, b.c, b.e) })
-			co := ecCombos[0]
-			for _, x := range ecCombos {
-				if x.name == b.c {
-					co = x
-				}
+			refusedOrCounted(rt, "subtle.ValidateECDSAParams", desc, func() error { return sigsubtle.ValidateECDSAParams(b.h, b.c, b.e) })
+			curve := sigref.CurveByName(b.c)
+			known := curve != nil && ecdsaHashBits[b.h] != 0 && (b.e == sigref.DER || b.e == sigref.P1363)
+			if curve == nil {
+				curve = elliptic.P256()
 			}
-			size := sigref.ScalarSize(co.c)
-			scalar := big.NewInt(7).FillBytes(make([]byte, size))
-			qx, qy := co.c.ScalarBaseMult(scalar)
-			refused(rt, "NewECDSASigner "+desc, func() error { _, err := sigsubtle.NewECDSASigner(b.h, b.c, b.e, scalar); return err })
-			refused(rt, "NewECDSAVerifier "+desc, func() error {
-				_, err := sigsubtle.NewECDSAVerifier(b.h, b.c, b.e, qx.Bytes(), qy.Bytes())
+			size := sigref.ScalarSize(curve)
+			d, note := drawScalar(rt, curve)
+			scalar := d.FillBytes(make([]byte, size))
+			qx, qy := curve.ScalarBaseMult(scalar)
+			c := &sigCase{scheme: "ECDSA", params: b.c + "-" + b.h + "/" + b.e, variant: tk.NoPrefix, route: "subtle(out-of-domain)",
+				keyDesc: fmt.Sprintf("d=%x %s", scalar, note), prefix: tk.Prefix(tk.NoPrefix, 0)}
+			mkSigner := func() error { s, err := sigsubtle.NewECDSASigner(b.h, b.c, b.e, scalar); c.signer = s; return err }
+			mkVerifier := func() error {
+				v, err := sigsubtle.NewECDSAVerifier(b.h, b.c, b.e, qx.Bytes(), qy.Bytes())
+				c.verifier = v
 				return err
-			})
+			}
+			switch {
+			case known && ecdsaHashBits[b.h] < ecdsaCurveBits[b.c]:
+				refused(rt, "NewECDSASigner "+desc+c14, mkSigner)
+				refused(rt, "NewECDSAVerifier "+desc+c14, mkVerifier)
+			case known: // a hash longer than the curve: the standard algorithm is defined (leftmost bits)
+				sb := refusedOrCounted(rt, "subtle-ecdsa-hash-longer-than-curve/signer", desc, mkSigner)
+				vb := refusedOrCounted(rt, "subtle-ecdsa-hash-longer-than-curve/verifier", desc, mkVerifier)
+				if sb && vb {
+					ecdsaOracles(c, ecCombo{name: b.c, short: b.c, c: curve, hash: b.h}, b.e, d, qx, qy)
+					oodOracle(rt, c, "subtle-ecdsa-hash-longer-than-curve")
+				}
+			default: // a name outside the supported sets: no reference exists
+				refusedOrCounted(rt, "subtle-ecdsa-unknown-name/signer", desc, mkSigner)
+				refusedOrCounted(rt, "subtle-ecdsa-unknown-name/verifier", desc, mkVerifier)
+			}
 		case "ecdsa-point":
-			co := rapid.SampledFrom(ecCombos).Draw(rt, "combo")
+			co := gen.Pick(rt, "combo", ecCombos)
 			size := sigref.ScalarSize(co.c)
 			d, _ := drawScalar(rt, co.c)
-			qx, qy := co.c.ScalarBaseMult(d.FillBytes(make([]byte, size)))
+			scalar := d.FillBytes(make([]byte, size))
+			qx, qy := co.c.ScalarBaseMult(scalar)
 			point := cat([]byte{4}, qx.FillBytes(make([]byte, size)), qy.FillBytes(make([]byte, size)))
 			params := tk.Must(ecdsa.NewParameters(co.ct, co.ht, ecdsa.DER, ecdsa.VariantTink))
+			msg := gen.Bytes(rt, "msg", 64)
+			// a DER signature of msg by the genuine key d: no verifier for another "key" may accept it
+			genuine := func() []byte {
+				k := &stdecdsa.PrivateKey{D: d}
+				k.Curve, k.X, k.Y = co.c, qx, qy
+				der, err := stdecdsa.SignASN1(rand.Reader, k, sigref.Digest(co.hash, msg))
+				if err != nil {
+					rt.Fatalf("harness: SignASN1: %v", err)
+				}
+				if !sigref.ECDSAVerify(co.c, qx, qy, co.hash, sigref.DER, msg, der) {
+					rt.Fatalf("harness: reference rejects the standard library's signature")
+				}
+				return der
+			}
 			bad := bytes.Clone(point)
-			switch how := rapid.SampledFrom([]string{"flip", "short", "long", "compressed-tag", "infinity", "x=p"}).Draw(rt, "how"); how {
+			how := gen.Pick(rt, "how", []string{"flip", "short", "long", "compressed-tag", "infinity", "x=p"})
+			notQ := false // bad is certainly neither Q nor any point of the curve
+			switch how {
 			case "flip":
 				bit := rapid.IntRange(8, 8*len(point)-1).Draw(rt, "bit")
 				bad[bit/8] ^= 1 << uint(bit%8)
@@ -121,10 +254,17 @@ func TestSigOutOfDomain(t *testing.T) {
 				if sigref.OnCurve(co.c, x, y) {
 					return // still a point of the curve (only -Q could be): in domain
 				}
-				refused(rt, fmt.Sprintf("subtle.NewECDSAVerifier %s off-curve point %x", co.name, bad), func() error {
-					_, err := sigsubtle.NewECDSAVerifier(co.hash, co.name, "DER", bad[1:1+size], bad[1+size:])
+				notQ = true
+				var v tink.Verifier
+				if refusedOrCounted(rt, "subtle.NewECDSAVerifier-off-curve", fmt.Sprintf("%s off-curve point %x", co.name, bad), func() error {
+					var err error
+					v, err = sigsubtle.NewECDSAVerifier(co.hash, co.name, "DER", bad[1:1+size], bad[1+size:])
 					return err
-				})
+				}) {
+					if sig := genuine(); v.Verify(sig, msg) == nil {
+						rt.Fatalf("subtle.NewECDSAVerifier(%s) built from the off-curve point %x accepts a signature of the key d=%x Q=%x\n sig=%x\n msg=%x", co.name, bad, scalar, point, sig, msg)
+					}
+				}
 			case "short":
 				bad = bad[:len(bad)-1]
 			case "long":
@@ -135,16 +275,34 @@ func TestSigOutOfDomain(t *testing.T) {
 				bad = []byte{0}
 			case "x=p":
 				copy(bad[1:], co.c.Params().P.FillBytes(make([]byte, size)))
+				notQ = !sigref.OnCurve(co.c, new(big.Int), qy) // (p mod p, y) = (0, y)
 			}
-			desc = fmt.Sprintf("ecdsa.NewPublicKey %s %x", co.name, bad)
-			refused(rt, desc, func() error { _, err := ecdsa.NewPublicKey(bad, 1, params); return err })
+			desc = fmt.Sprintf("ecdsa.NewPublicKey %s %x (%s)", co.name, bad, how)
+			var pub *ecdsa.PublicKey
+			if refusedOrCounted(rt, "ecdsa.NewPublicKey-"+how, desc, func() error {
+				var err error
+				pub, err = ecdsa.NewPublicKey(bad, 1, params)
+				return err
+			}) && notQ {
+				var v tink.Verifier
+				if refusedOrCounted(rt, "ecdsa.NewVerifier-not-a-point", desc, func() error {
+					var err error
+					v, err = ecdsa.NewVerifier(pub, internalapi.Token{})
+					return err
+				}) {
+					if sig := cat(tk.Prefix(tk.Tink, 1), genuine()); v.Verify(sig, msg) == nil {
+						rt.Fatalf("%s was built and its verifier accepts a signature of the key d=%x Q=%x\n sig=%x\n msg=%x", desc, scalar, point, sig, msg)
+					}
+				}
+			}
 		case "ecdsa-scalar":
-			co := rapid.SampledFrom(ecCombos).Draw(rt, "combo")
+			co := gen.Pick(rt, "combo", ecCombos)
 			size := sigref.ScalarSize(co.c)
 			n := co.c.Params().N
 			params := tk.Must(ecdsa.NewParameters(co.ct, co.ht, ecdsa.DER, ecdsa.VariantTink))
 			var bad []byte
-			switch rapid.SampledFrom([]string{"zero", "n", "above-n", "short", "long"}).Draw(rt, "how") {
+			how := gen.Pick(rt, "how", []string{"zero", "n", "above-n", "short", "long"})
+			switch how {
 			case "zero":
 				bad = make([]byte, size)
 			case "n":
@@ -160,26 +318,26 @@ func TestSigOutOfDomain(t *testing.T) {
 				bad = append(make([]byte, 1), bytes.Repeat([]byte{1}, size)...)
 			}
 			desc = fmt.Sprintf("ecdsa.NewPrivateKey %s scalar %x", co.name, bad)
-			refused(rt, desc, func() error { _, err := ecdsa.NewPrivateKey(tk.Secret(bad), 1, params); return err })
+			refusedOrCounted(rt, "ecdsa.NewPrivateKey-scalar-"+how, desc, func() error { _, err := ecdsa.NewPrivateKey(tk.Secret(bad), 1, params); return err })
 		case "ecdsa-noprefix-id":
-			co := rapid.SampledFrom(ecCombos).Draw(rt, "combo")
+			co := gen.Pick(rt, "combo", ecCombos)
 			size := sigref.ScalarSize(co.c)
 			params := tk.Must(ecdsa.NewParameters(co.ct, co.ht, ecdsa.DER, ecdsa.VariantNoPrefix))
 			id := uint32(rapid.Uint32Range(1, 0xffffffff).Draw(rt, "id"))
 			desc = fmt.Sprintf("NO_PREFIX keys with id %d", id)
-			refused(rt, "ecdsa "+desc, func() error {
+			refusedOrCounted(rt, "noprefix-id/ecdsa", desc, func() error {
 				_, err := ecdsa.NewPrivateKey(tk.Secret(big.NewInt(7).FillBytes(make([]byte, size))), id, params)
 				return err
 			})
-			refused(rt, "ed25519 "+desc, func() error {
+			refusedOrCounted(rt, "noprefix-id/ed25519", desc, func() error {
 				_, err := ed25519.NewPrivateKey(tk.Secret(make([]byte, 32)), id, tk.Must(ed25519.NewParameters(ed25519.VariantNoPrefix)))
 				return err
 			})
-			refused(rt, "rsassapkcs1 "+desc, func() error {
+			refusedOrCounted(rt, "noprefix-id/rsassapkcs1", desc, func() error {
 				_, err := rsassapkcs1.NewPublicKey(pool[0].std.N.Bytes(), id, tk.Must(rsassapkcs1.NewParameters(2048, rsassapkcs1.SHA256, 65537, rsassapkcs1.VariantNoPrefix)))
 				return err
 			})
-			refused(rt, "rsassapss "+desc, func() error {
+			refusedOrCounted(rt, "noprefix-id/rsassapss", desc, func() error {
 				p := tk.Must(rsassapss.NewParameters(rsassapss.ParametersValues{ModulusSizeBits: 2048, SigHashType: rsassapss.SHA256, MGF1HashType: rsassapss.SHA256, PublicExponent: 65537, SaltLengthBytes: 32}, rsassapss.VariantNoPrefix))
 				_, err := rsassapss.NewPublicKey(pool[0].std.N.Bytes(), id, p)
 				return err
@@ -192,92 +350,138 @@ func TestSigOutOfDomain(t *testing.T) {
 			b := gen.BytesN(rt, "bytes", n)
 			params := tk.Must(ed25519.NewParameters(ed25519.VariantTink))
 			desc = fmt.Sprintf("Ed25519 key material of %d bytes", n)
-			refused(rt, "subtle.NewED25519Signer "+desc, func() error { _, err := sigsubtle.NewED25519Signer(b); return err })
-			refused(rt, "ed25519.NewPrivateKey "+desc, func() error { _, err := ed25519.NewPrivateKey(tk.Secret(b), 1, params); return err })
-			refused(rt, "ed25519.NewPublicKey "+desc, func() error { _, err := ed25519.NewPublicKey(b, 1, params); return err })
+			refusedOrCounted(rt, "ed25519-length/subtle.NewED25519Signer", desc, func() error { _, err := sigsubtle.NewED25519Signer(b); return err })
+			refusedOrCounted(rt, "ed25519-length/NewPrivateKey", desc, func() error { _, err := ed25519.NewPrivateKey(tk.Secret(b), 1, params); return err })
+			refusedOrCounted(rt, "ed25519-length/NewPublicKey", desc, func() error { _, err := ed25519.NewPublicKey(b, 1, params); return err })
 		case "ed25519-params":
 			desc = "ed25519.NewParameters(VariantUnknown)"
-			refused(rt, desc, func() error { _, err := ed25519.NewParameters(ed25519.VariantUnknown); return err })
+			refusedOrCounted(rt, "ed25519.NewParameters-unknown-variant", desc, func() error { _, err := ed25519.NewParameters(ed25519.VariantUnknown); return err })
 		case "rsa-params-modulus":
+			// C14: no Verifier may come out of a modulus under 2048 bits, whichever constructor stops it
 			bits := rapid.IntRange(-8, 2047).Draw(rt, "bits")
-			desc = fmt.Sprintf("RSA NewParameters modulus %d bits", bits)
-			refused(rt, "rsassapkcs1 "+desc, func() error {
-				_, err := rsassapkcs1.NewParameters(bits, rsassapkcs1.SHA256, 65537, rsassapkcs1.VariantTink)
+			nbits := bits
+			if nbits < 16 {
+				nbits = 16
+			}
+			nb := gen.BytesN(rt, "n", (nbits+7)/8)
+			n := new(big.Int).SetBytes(nb)
+			n.Rsh(n, uint(8*len(nb)-nbits))
+			n.SetBit(n, nbits-1, 1)
+			n.SetBit(n, 0, 1)
+			desc = fmt.Sprintf("RSA NewParameters modulus %d bits, then NewPublicKey(%x), NewVerifier", bits, n)
+			refused(rt, "rsassapkcs1 "+desc+c14, func() error {
+				p, err := rsassapkcs1.NewParameters(bits, rsassapkcs1.SHA256, 65537, rsassapkcs1.VariantTink)
+				if err != nil {
+					return err
+				}
+				pub, err := rsassapkcs1.NewPublicKey(n.Bytes(), 1, p)
+				if err != nil {
+					return err
+				}
+				_, err = rsassapkcs1.NewVerifier(pub, internalapi.Token{})
 				return err
 			})
-			refused(rt, "rsassapss "+desc, func() error {
-				_, err := rsassapss.NewParameters(rsassapss.ParametersValues{ModulusSizeBits: bits, SigHashType: rsassapss.SHA256, MGF1HashType: rsassapss.SHA256, PublicExponent: 65537, SaltLengthBytes: 32}, rsassapss.VariantTink)
+			refused(rt, "rsassapss "+desc+c14, func() error {
+				p, err := rsassapss.NewParameters(rsassapss.ParametersValues{ModulusSizeBits: bits, SigHashType: rsassapss.SHA256, MGF1HashType: rsassapss.SHA256, PublicExponent: 65537, SaltLengthBytes: 32}, rsassapss.VariantTink)
+				if err != nil {
+					return err
+				}
+				pub, err := rsassapss.NewPublicKey(n.Bytes(), 1, p)
+				if err != nil {
+					return err
+				}
+				_, err = rsassapss.NewVerifier(pub, internalapi.Token{})
 				return err
 			})
-		case "rsa-params-exponent":
+		case "rsa-params-exponent", "rsa-key-exponent":
+			// C14: no Verifier may come out of an exponent other than 65537, whichever constructor stops it
+			// (NewParameters refuses e < 65537, even e and e > 2^31-1; the primitives insist on 65537)
 			var e int
-			switch rapid.IntRange(0, 2).Draw(rt, "how") {
+			switch gen.Uniform(rt, "how", 4) {
 			case 0:
 				e = rapid.IntRange(-3, 65536).Draw(rt, "e")
 			case 1:
 				e = 2 * rapid.IntRange(32769, 1<<30-1).Draw(rt, "half") // even
-			default:
+			case 2:
 				e = (1 << 31) + 2*rapid.IntRange(0, 1<<20).Draw(rt, "over") + 1 // odd, above 2^31-1
+			default:
+				e = 65537 + 2*rapid.IntRange(1, 1<<29).Draw(rt, "odd") // what NewParameters admits
 			}
-			desc = fmt.Sprintf("RSA NewParameters public exponent %d", e)
-			refused(rt, "rsassapkcs1 "+desc, func() error {
-				_, err := rsassapkcs1.NewParameters(2048, rsassapkcs1.SHA256, e, rsassapkcs1.VariantTink)
+			desc = fmt.Sprintf("RSA NewParameters public exponent %d, then NewPublicKey, NewVerifier", e)
+			refused(rt, "rsassapkcs1 "+desc+c14, func() error {
+				p, err := rsassapkcs1.NewParameters(2048, rsassapkcs1.SHA256, e, rsassapkcs1.VariantTink)
+				if err != nil {
+					return err
+				}
+				pub, err := rsassapkcs1.NewPublicKey(pool[0].std.N.Bytes(), 1, p)
+				if err != nil {
+					return err
+				}
+				_, err = rsassapkcs1.NewVerifier(pub, internalapi.Token{})
 				return err
 			})
-			refused(rt, "rsassapss "+desc, func() error {
-				_, err := rsassapss.NewParameters(rsassapss.ParametersValues{ModulusSizeBits: 2048, SigHashType: rsassapss.SHA256, MGF1HashType: rsassapss.SHA256, PublicExponent: e, SaltLengthBytes: 32}, rsassapss.VariantTink)
+			refused(rt, "rsassapss "+desc+c14, func() error {
+				p, err := rsassapss.NewParameters(rsassapss.ParametersValues{ModulusSizeBits: 2048, SigHashType: rsassapss.SHA256, MGF1HashType: rsassapss.SHA256, PublicExponent: e, SaltLengthBytes: 32}, rsassapss.VariantTink)
+				if err != nil {
+					return err
+				}
+				pub, err := rsassapss.NewPublicKey(pool[0].std.N.Bytes(), 1, p)
+				if err != nil {
+					return err
+				}
+				_, err = rsassapss.NewVerifier(pub, internalapi.Token{})
 				return err
 			})
 		case "rsa-params-enum":
 			badHash := rapid.SampledFrom([]int{0, int(rsassapkcs1.SHA512) + 1, 99}).Draw(rt, "hash")
 			desc = fmt.Sprintf("RSA NewParameters hash enum %d / unknown variant", badHash)
-			refused(rt, "rsassapkcs1 hash "+desc, func() error {
+			refusedOrCounted(rt, "rsa-params-enum/rsassapkcs1-hash", desc, func() error {
 				_, err := rsassapkcs1.NewParameters(2048, rsassapkcs1.HashType(badHash), 65537, rsassapkcs1.VariantTink)
 				return err
 			})
-			refused(rt, "rsassapss hash "+desc, func() error {
+			refusedOrCounted(rt, "rsa-params-enum/rsassapss-hash", desc, func() error {
 				_, err := rsassapss.NewParameters(rsassapss.ParametersValues{ModulusSizeBits: 2048, SigHashType: rsassapss.HashType(badHash), MGF1HashType: rsassapss.HashType(badHash), PublicExponent: 65537, SaltLengthBytes: 32}, rsassapss.VariantTink)
 				return err
 			})
-			refused(rt, "rsassapkcs1 variant "+desc, func() error {
+			refusedOrCounted(rt, "rsa-params-enum/rsassapkcs1-variant", desc, func() error {
 				_, err := rsassapkcs1.NewParameters(2048, rsassapkcs1.SHA256, 65537, rsassapkcs1.VariantUnknown)
 				return err
 			})
-			refused(rt, "rsassapss variant "+desc, func() error {
+			refusedOrCounted(rt, "rsa-params-enum/rsassapss-variant", desc, func() error {
 				_, err := rsassapss.NewParameters(rsassapss.ParametersValues{ModulusSizeBits: 2048, SigHashType: rsassapss.SHA256, MGF1HashType: rsassapss.SHA256, PublicExponent: 65537, SaltLengthBytes: 32}, rsassapss.VariantUnknown)
 				return err
 			})
 		case "pss-params-salt-mgf":
 			salt := rapid.IntRange(-1000, -1).Draw(rt, "salt")
 			desc = fmt.Sprintf("PSS salt %d / MGF1 hash != signature hash", salt)
-			refused(rt, "rsassapss.NewParameters "+desc, func() error {
+			refusedOrCounted(rt, "pss-negative-salt/NewParameters", desc, func() error {
 				_, err := rsassapss.NewParameters(rsassapss.ParametersValues{ModulusSizeBits: 2048, SigHashType: rsassapss.SHA256, MGF1HashType: rsassapss.SHA256, PublicExponent: 65537, SaltLengthBytes: salt}, rsassapss.VariantTink)
 				return err
 			})
-			refused(rt, "New_RSA_SSA_PSS_Signer "+desc, func() error { _, err := isig.New_RSA_SSA_PSS_Signer("SHA256", salt, pool[0].std); return err })
-			refused(rt, "New_RSA_SSA_PSS_Verifier "+desc, func() error {
+			refusedOrCounted(rt, "pss-negative-salt/New_RSA_SSA_PSS_Signer", desc, func() error { _, err := isig.New_RSA_SSA_PSS_Signer("SHA256", salt, pool[0].std); return err })
+			refusedOrCounted(rt, "pss-negative-salt/New_RSA_SSA_PSS_Verifier", desc, func() error {
 				_, err := isig.New_RSA_SSA_PSS_Verifier("SHA256", salt, &pool[0].std.PublicKey)
 				return err
 			})
 			hs := []rsassapss.HashType{rsassapss.SHA256, rsassapss.SHA384, rsassapss.SHA512}
 			i := rapid.IntRange(0, 2).Draw(rt, "sig")
 			j := (i + rapid.IntRange(1, 2).Draw(rt, "mgf")) % 3
-			refused(rt, "rsassapss.NewParameters mismatched MGF1 "+desc, func() error {
+			refusedOrCounted(rt, "pss-mgf1-hash-differs/NewParameters", desc, func() error {
 				_, err := rsassapss.NewParameters(rsassapss.ParametersValues{ModulusSizeBits: 2048, SigHashType: hs[i], MGF1HashType: hs[j], PublicExponent: 65537, SaltLengthBytes: 32}, rsassapss.VariantTink)
 				return err
 			})
 		case "rsa-modulus-mismatch":
-			pk := pool[rapid.IntRange(0, len(pool)-1).Draw(rt, "pool")]
+			pk := pool[gen.Uniform(rt, "pool", len(pool))]
 			bits := rapid.IntRange(2048, 4200).Draw(rt, "bits")
 			if bits == pk.bits {
 				bits++
 			}
 			desc = fmt.Sprintf("NewPublicKey: %d-bit modulus for %d-bit parameters", pk.bits, bits)
-			refused(rt, "rsassapkcs1 "+desc, func() error {
+			refusedOrCounted(rt, "rsa-modulus-size-differs/rsassapkcs1", desc, func() error {
 				_, err := rsassapkcs1.NewPublicKey(pk.std.N.Bytes(), 1, tk.Must(rsassapkcs1.NewParameters(bits, rsassapkcs1.SHA256, 65537, rsassapkcs1.VariantTink)))
 				return err
 			})
-			refused(rt, "rsassapss "+desc, func() error {
+			refusedOrCounted(rt, "rsa-modulus-size-differs/rsassapss", desc, func() error {
 				p := tk.Must(rsassapss.NewParameters(rsassapss.ParametersValues{ModulusSizeBits: bits, SigHashType: rsassapss.SHA256, MGF1HashType: rsassapss.SHA256, PublicExponent: 65537, SaltLengthBytes: 32}, rsassapss.VariantTink))
 				_, err := rsassapss.NewPublicKey(pk.std.N.Bytes(), 1, p)
 				return err
@@ -291,9 +495,9 @@ func TestSigOutOfDomain(t *testing.T) {
 			n.SetBit(n, 0, 1)
 			pub := &stdrsa.PublicKey{N: n, E: 65537}
 			desc = fmt.Sprintf("internal RSA verifiers with a %d-bit modulus %x", n.BitLen(), n)
-			refused(rt, "PKCS1 "+desc, func() error { _, err := isig.New_RSA_SSA_PKCS1_Verifier("SHA256", pub); return err })
-			refused(rt, "PSS "+desc, func() error { _, err := isig.New_RSA_SSA_PSS_Verifier("SHA256", 32, pub); return err })
-			refused(rt, "ValidateRSAPublicKeyParams "+desc, func() error { return isig.ValidateRSAPublicKeyParams("SHA256", n.BitLen(), []byte{1, 0, 1}) })
+			refused(rt, "PKCS1 "+desc+c14, func() error { _, err := isig.New_RSA_SSA_PKCS1_Verifier("SHA256", pub); return err })
+			refused(rt, "PSS "+desc+c14, func() error { _, err := isig.New_RSA_SSA_PSS_Verifier("SHA256", 32, pub); return err })
+			refusedOrCounted(rt, "ValidateRSAPublicKeyParams-small-modulus", desc, func() error { return isig.ValidateRSAPublicKeyParams("SHA256", n.BitLen(), []byte{1, 0, 1}) })
 		case "rsa-internal-exponent":
 			e := rapid.IntRange(1, 1<<31-1).Draw(rt, "e")
 			if rapid.Bool().Draw(rt, "near") {
@@ -305,41 +509,51 @@ func TestSigOutOfDomain(t *testing.T) {
 			pub := &stdrsa.PublicKey{N: pool[0].std.N, E: e}
 			priv := &stdrsa.PrivateKey{PublicKey: *pub, D: pool[0].std.D, Primes: pool[0].std.Primes}
 			desc = fmt.Sprintf("internal RSA primitives with e = %d", e)
-			refused(rt, "PKCS1 verifier "+desc, func() error { _, err := isig.New_RSA_SSA_PKCS1_Verifier("SHA256", pub); return err })
-			refused(rt, "PSS verifier "+desc, func() error { _, err := isig.New_RSA_SSA_PSS_Verifier("SHA256", 32, pub); return err })
-			refused(rt, "PKCS1 signer "+desc, func() error { _, err := isig.New_RSA_SSA_PKCS1_Signer("SHA256", priv); return err })
-			refused(rt, "PSS signer "+desc, func() error { _, err := isig.New_RSA_SSA_PSS_Signer("SHA256", 32, priv); return err })
-			refused(rt, "RSAValidPublicExponent "+desc, func() error { return isig.RSAValidPublicExponent(e) })
+			refused(rt, "PKCS1 verifier "+desc+c14, func() error { _, err := isig.New_RSA_SSA_PKCS1_Verifier("SHA256", pub); return err })
+			refused(rt, "PSS verifier "+desc+c14, func() error { _, err := isig.New_RSA_SSA_PSS_Verifier("SHA256", 32, pub); return err })
+			refused(rt, "PKCS1 signer "+desc+c14, func() error { _, err := isig.New_RSA_SSA_PKCS1_Signer("SHA256", priv); return err })
+			refused(rt, "PSS signer "+desc+c14, func() error { _, err := isig.New_RSA_SSA_PSS_Signer("SHA256", 32, priv); return err })
+			refusedOrCounted(rt, "RSAValidPublicExponent", desc, func() error { return isig.RSAValidPublicExponent(e) })
 		case "rsa-internal-hash":
-			hn := rapid.SampledFrom([]string{"SHA1", "SHA224", "MD5", "", "sha256", "SHA-256", "SHA3_256"}).Draw(rt, "hash")
-			desc = fmt.Sprintf("internal RSA primitives with hash %q", hn)
-			refused(rt, "PKCS1 verifier "+desc, func() error { _, err := isig.New_RSA_SSA_PKCS1_Verifier(hn, &pool[0].std.PublicKey); return err })
-			refused(rt, "PSS verifier "+desc, func() error { _, err := isig.New_RSA_SSA_PSS_Verifier(hn, 20, &pool[0].std.PublicKey); return err })
-			refused(rt, "PKCS1 signer "+desc, func() error { _, err := isig.New_RSA_SSA_PKCS1_Signer(hn, pool[0].std); return err })
-			refused(rt, "PSS signer "+desc, func() error { _, err := isig.New_RSA_SSA_PSS_Signer(hn, 20, pool[0].std); return err })
-			refused(rt, "HashSafeForSignature "+desc, func() error { return isig.HashSafeForSignature(hn) })
-		case "rsa-key-exponent":
-			// NewParameters admits odd exponents in [65537, 2^31-1]; the primitives insist on 65537.
-			e := 65537 + 2*rapid.IntRange(1, 1<<29).Draw(rt, "e")
-			desc = fmt.Sprintf("key-level verifier for a public key with e = %d", e)
-			refused(rt, "rsassapkcs1.NewVerifier "+desc, func() error {
-				pub, err := rsassapkcs1.NewPublicKey(pool[0].std.N.Bytes(), 1, tk.Must(rsassapkcs1.NewParameters(2048, rsassapkcs1.SHA256, e, rsassapkcs1.VariantTink)))
-				if err != nil {
-					return err
-				}
-				_, err = rsassapkcs1.NewVerifier(pub, internalapi.Token{})
+			// SHA-1 / SHA-224 with RSA are not among C14's minimum strengths: a refusal is counted; a built
+			// pair runs the equivalence oracle (the reference implements both hashes); other names have no reference
+			hn := gen.Pick(rt, "hash", []string{"SHA1", "SHA224", "MD5", "", "sha256", "SHA-256", "SHA3_256"})
+			pk := pool[0]
+			desc = fmt.Sprintf("internal RSA primitives with hash %q, %s", hn, pk.desc())
+			hasRef := hn == "SHA1" || hn == "SHA224"
+			c1 := &sigCase{scheme: "RSAPKCS1", params: "2048-" + hn, variant: tk.NoPrefix, route: "subtle(out-of-domain)", keyDesc: pk.desc(), prefix: tk.Prefix(tk.NoPrefix, 0)}
+			vb := refusedOrCounted(rt, "rsa-hash-name/pkcs1-verifier/"+hn, desc, func() error {
+				v, err := isig.New_RSA_SSA_PKCS1_Verifier(hn, &pk.std.PublicKey)
+				c1.verifier = v
 				return err
 			})
-			refused(rt, "rsassapss.NewVerifier "+desc, func() error {
-				p := tk.Must(rsassapss.NewParameters(rsassapss.ParametersValues{ModulusSizeBits: 2048, SigHashType: rsassapss.SHA256, MGF1HashType: rsassapss.SHA256, PublicExponent: e, SaltLengthBytes: 32}, rsassapss.VariantTink))
-				pub, err := rsassapss.NewPublicKey(pool[0].std.N.Bytes(), 1, p)
-				if err != nil {
-					return err
-				}
-				_, err = rsassapss.NewVerifier(pub, internalapi.Token{})
+			sb := refusedOrCounted(rt, "rsa-hash-name/pkcs1-signer/"+hn, desc, func() error {
+				s, err := isig.New_RSA_SSA_PKCS1_Signer(hn, pk.std)
+				c1.signer = s
 				return err
 			})
+			if vb && sb && hasRef {
+				c1.ref = func(raw, effMsg []byte) bool { return sigref.VerifyPKCS1(pk.pub, hn, effMsg, raw) }
+				oodOracle(rt, c1, "rsa-hash-name/pkcs1/"+hn)
+			}
+			c2 := &sigCase{scheme: "RSAPSS", params: "2048-" + hn + "-salt20", variant: tk.NoPrefix, route: "subtle(out-of-domain)", keyDesc: pk.desc(), prefix: tk.Prefix(tk.NoPrefix, 0)}
+			vb = refusedOrCounted(rt, "rsa-hash-name/pss-verifier/"+hn, desc, func() error {
+				v, err := isig.New_RSA_SSA_PSS_Verifier(hn, 20, &pk.std.PublicKey)
+				c2.verifier = v
+				return err
+			})
+			sb = refusedOrCounted(rt, "rsa-hash-name/pss-signer/"+hn, desc, func() error {
+				s, err := isig.New_RSA_SSA_PSS_Signer(hn, 20, pk.std)
+				c2.signer = s
+				return err
+			})
+			if vb && sb && hasRef {
+				c2.ref = func(raw, effMsg []byte) bool { return sigref.VerifyPSS(pk.pub, hn, 20, effMsg, raw) }
+				oodOracle(rt, c2, "rsa-hash-name/pss/"+hn)
+			}
+			refusedOrCounted(rt, "HashSafeForSignature/"+hn, desc, func() error { return isig.HashSafeForSignature(hn) })
 		}
+		evid.Add("ood_kind/"+kind, 1)
 		evid.Case("outofdomain/"+kind, true, evid.NewH().S(kind).S(desc).Sum(), func() any { return desc })
 	})
 }
